@@ -60,6 +60,29 @@ CLAIMED['C12'] = (
     'accessors documented to expose internal storage are exempt from array-write independence; sharing among the '
     'components of one result is not judged.', '4/C12')
 
+CLAIMED['C14'] = (
+    'TLA+ definitional model NoiseCov.tla (Resid, CrossProd, Dof, Full as exact rationals; shrinkage by relation) with '
+    'theorems as TLC invariants; exact test vectors replayed into cov_/prec_from_*; recorded calls recomputed by Trace_NoiseCov.tla',
+    'TLC enumerates every design (label vector, balanced or not, every row order), small integer data, dof option and input form '
+    'on the exhaustive grid plus seeded random larger designs, checks row-order invariance, measurement-based = unbalanced on '
+    'balanced designs, list = element-wise, PSD and the convex-combination relations on the definitions, and emits each state with '
+    'its exact residual covariance; every vector is replayed through the six public estimators (exact for full/diag, one-lambda '
+    'relation + symmetry + eigenvalues for the shrinkage methods, precision times covariance = I, inputs unmodified); calls recorded '
+    'on larger random designs are validated by the trace specification recomputing cross-product and dof in TLC.',
+    'Bounded grids (<= 4 conditions x 4 repetitions x 4 channels); shrinkage intensity formulae are not pinned (the property states '
+    'relations only); numpy.linalg for eigenvalues and inverses.', '4/C14 and notes/C14.md')
+CLAIMED['C20'] = (
+    'TLA+ model Importers.tla (BIDS Parse/Format over integer atoms, look-up frame rule, Meadows name grammar and label '
+    'permutation, exact SPM projection, design-matrix and epochs post-conditions) checked by TLC; vectors replayed into '
+    'the importers; recorded calls recomputed by Trace_Importers.tla',
+    'TLC checks Parse(Format(e)) = e and Format(Parse(p)) = p over all 3^10 presence/value combinations of the ten BIDS entities, '
+    'the frame rule of every look-up, the Meadows name grammar and the exact label permutation, and the SPM filter laws on integer '
+    'orthonormal bases; every emitted vector is replayed into BidsFile/BidsLayout look-ups (also through real directory trees), '
+    'load_rdms on generated .mat/.json files, dataset_from_epochs, make_design_matrix and SpmGlm.spm_filter; calls recorded on '
+    'random larger inputs are validated by the trace specification.',
+    'HRF shape is not specified by the property: design matrices are checked structurally (columns, flags, range, mean, dof) at 1e-9; '
+    'file-name shapes the code documents as unsupported are counted, not demanded.', '4/C20 and notes/C20.md')
+
 NOT_YET = {
 }
 
